@@ -68,8 +68,8 @@ theorem Inv.wTake {s : State} (hI : Inv s) {h n ver : Nat} (hp : s.pc (.fr h) = 
     · inv_simp; grind [updA, upd]
   case placed => inv_auto
   case freshHolder => inv_auto
-  case scanL0 => inv_auto
-  case unlockL0 => inv_auto
+  case scanL0 => unfold ScanL0 at *; inv_auto
+  case unlockL0 => unfold ScanL0 UnlockL0 at *; inv_auto
   case oScanOk => inv_auto
   case oNoneOk => inv_auto
   case aUnlockOk => inv_auto
@@ -151,8 +151,8 @@ theorem Inv.cTakeOk' {s : State} (hI : Inv s) {a : Actor} {n ver : Nat} (hp : s.
     · inv_simp; grind [updA, upd]
   case placed => inv_auto
   case freshHolder => inv_auto
-  case scanL0 => inv_auto
-  case unlockL0 => inv_auto
+  case scanL0 => unfold ScanL0 at *; inv_auto
+  case unlockL0 => unfold ScanL0 UnlockL0 at *; inv_auto
   case oScanOk => inv_auto
   case oNoneOk => inv_auto
   case aUnlockOk => inv_auto
